@@ -94,5 +94,15 @@ pub fn seeds() -> Vec<(&'static str, Module)> {
         "s10-literals",
         Module::new("Literals").def("T", Ty::seq(vec![Comp::new("s", utf(Size::Any)).default(Lit::Str("a b".into())), Comp::new("i", Ty::int_r(0, 9)).default(Lit::Int(4)), Comp::new("b", Ty::Bool).default(Lit::Bool(false))])),
     ));
+    // S13: recursion through untagged CHOICE alternatives (directly, and two CHOICEs naming each other), through a
+    // list and through an OPTIONAL component: tag resolution and type conversion must terminate
+    out.push((
+        "s13-recursive",
+        Module::new("Rec")
+            .def("Expr", Ty::choice(vec![Alt::new("literal", Ty::int()), Alt::new("negated", Ty::r("Expr"))]))
+            .def("A", Ty::choice(vec![Alt::new("x", Ty::Bool), Alt::new("y", Ty::r("B"))]))
+            .def("B", Ty::choice(vec![Alt::new("p", Ty::Null), Alt::new("q", Ty::r("A"))]))
+            .def("Tree", Ty::seq(vec![Comp::new("kids", Ty::seq_of(Size::Any, Ty::r("Tree"))), Comp::new("next", Ty::r("Tree")).opt()])),
+    ));
     out
 }
